@@ -10,6 +10,7 @@ import XalanModel.C05.Funnel
 import XalanModel.C05.TargetProofs
 import XalanModel.Generated.C05_Funnel
 import XalanModel.Generated.C05_Wiring
+import XalanModel.Generated.C05_Process
 /-!
 # C05 — the result does not depend on how source, stylesheet and output are supplied
 
@@ -496,6 +497,16 @@ theorem source_dom_support_table_complete :
     7 ≤ C05_Wiring.implementations.length ∧ 4 ≤ C05_Wiring.owners.length ∧
     (∀ o ∈ C05_Wiring.owners, o ∈ C05_Wiring.implementations) ∧
     (∀ o ∈ C05_Wiring.owners, ∃ r ∈ C05_Wiring.rows, r.cls = o ∧ r.byValue = true) := by
+  decide
+
+/-! ## (iii-c) both ways of running a stylesheet initialise the same engine state (table regenerated from the source) -/
+
+/-- `XSLTEngineImpl::process` for a stylesheet built from an input source / the xml-stylesheet PI and `process` for a
+compiled stylesheet copy the same things from the stylesheet root into engine and formatter state before running it
+(among them `m_hasCDATASectionElements`, which decides between CDATA sections and escaped text), and there is at least
+one such initialisation. -/
+theorem process_overloads_same_initialisations :
+    C05_Process.fromSource = C05_Process.compiled ∧ C05_Process.fromSource ≠ [] := by
   decide
 
 /-! ## (iii') the stylesheet named by the xml-stylesheet processing instruction -/
